@@ -516,3 +516,61 @@ Example C05_generated_merge_nofuel_witness :
   forall (VS : Val) (f : V -> V -> V),
   gen_on_intersection Z (fun _ _ => false) (fun _ _ => false) V veq f [(0, bot); (1, bot)] [(0, bot)] = NoFuel.
 Proof. exact @gen_on_intersection_nofuel_witness. Qed.
+
+(* ---- the visitors of the dense-time online interpreter, re-generated from the Python text on every build
+   (tools/py2coq_denseonlinevisitor.py, DenseOnlineVisitorGen.v): for every node class, the construction visitor stores an object of
+   the operation class whose generated update (DenseOnlineGen.v, on the stamps tz) is const_update / ustep / bstep of the hand model
+   DenseOnlineMon.v on its tz-instance state at that node, and rejects exactly the specifications that Support.supported DenseOn
+   excludes: the dispatch "node class -> operation class -> update" of DenseOnlineMon.v / DenseOnlineReset.v is the one of the code.
+   (The whole-run equation gen_drun = mon_run is NOT proved: see the header of DenseOnlineVisitorGenCorrect.v.) ---- *)
+From Coq Require String.
+From RV Require Import Units NodeName DenseOnlineVisitorGen DenseOnlineVisitorGenCorrect.
+From RV Require OnlineNamed Support.
+Theorem C05_generated_monitor : denseonlinevisitor_gen_statement.
+Proof. exact @denseonlinevisitor_gen_refines. Qed.
+Print Assumptions C05_generated_monitor.
+
+(* a rejected specification: a node class the dense-time online monitor does not implement, anywhere in a root, makes set_ast raise;
+   every other specification whose bounds time_unit_transformer converts is accepted *)
+Theorem C05_generated_monitor_rejects :
+  forall (VS : Val) (vidx : String.string -> String.string -> nat) (cval : String.string -> V) (bnd : bound -> bound -> nat * nat)
+         (tut : bound -> bound -> option (Z * Z)) (x : node),
+    (Support.supported Support.DenseOn (OnlineNamed.sem vidx cval bnd x) = false -> forall gd, gen_dconstruct tut cval x gd = None) /\
+    (Support.supported Support.DenseOn (OnlineNamed.sem vidx cval bnd x) = true -> tut_total tut x = true ->
+     forall gd, exists gd', gen_dconstruct tut cval x gd = Some gd').
+Proof.
+  intros VS vidx cval bnd tut x. split.
+  - intros H. apply (@gen_dconstruct_rejects VS vidx cval bnd tut x). rewrite supported_dense_on. exact H.
+  - intros H Ht. apply (@gen_dconstruct_accepts VS vidx cval bnd tut x); [rewrite supported_dense_on; exact H|exact Ht].
+Qed.
+Print Assumptions C05_generated_monitor_rejects.
+
+(* the update visitor, clause by clause: at every node class gen_dupdate has the shape of DenseOnlineMon.visit (memo test, children left
+   to right, the object under the node's name stepped once with the children's lists in this order and written back, result memoised) *)
+Theorem C05_generated_monitor_update : denseonlinevisitor_gen_update_statement.
+Proof. exact @denseonlinevisitor_gen_update_shape. Qed.
+Print Assumptions C05_generated_monitor_update.
+
+(* ... and on the specification and the batches of C05_monitor_nonvacuous (a shared sub-formula: the `visited` memo is hit; a bounded
+   operator; constants) the generated set_ast / update run end to end and return the lists of the hand monitor mon_run *)
+Import String.
+Local Open Scope string_scope.
+Example C05_generated_monitor_nonvacuous :
+  let vidx := fun (v f : String.string) => if String.eqb v "x" then 0%nat else 1%nat in
+  let cval := fun t : String.string => if String.eqb t "1.0" then Fin 1 else Fin 3 in
+  let bnd := fun b e : bound => (N.to_nat (bnum b), N.to_nat (bnum e)) in
+  let tut := fun b e : bound => Some (Z.of_N (bnum b), Z.of_N (bnum e)) in
+  let mkb := fun n => {| bnum := n; bden := 1; bunit := None |} in
+  let P := NBin (b_pred CGeq) (NVar "x" "") (NConst "1.0") in
+  let p := NBin b_and (NTUn t_once (mkb 0%N) (mkb 2%N) P)
+                      (NBin b_since (NUn u_not P) (NBin (b_pred CLeq) (NBin b_add (NVar "x" "") (NVar "y" "")) (NConst "3.0"))) in
+  let bs : list (list (list (Z * extz))) := [[[(0, Fin 3)]; [(0, Fin 1)]]; [[(2, Fin 0); (5, Fin 2)]; [(4, Fin 0)]]; [[(7, Fin 0)]; [(7, Fin 1)]]] in
+  let vobjs := fun (k : nat) (v f : String.string) => Some (lift (nth (vidx v f) (nth k bs []) [])) in
+  let f := OnlineNamed.sem vidx cval bnd p in
+  match gen_dset_ast tut cval [p] with
+  | None => False
+  | Some d0 =>
+      option_map snd (gen_drun ExtZArith vobjs [p] d0 0 3) = option_map snd (mon_run ExtZArith (fun _ _ => PStd) f (mon_init f) bs) /\
+      option_map snd (gen_drun ExtZArith vobjs [p] d0 0 3) = Some [[]; [(T 0, Fin (-2)); (T 2, Fin 1)]; [(T 4, Fin (-1)); (T 5, Fin (-1))]]
+  end.
+Proof. cbv zeta. vm_compute. split; reflexivity. Qed.
